@@ -44,8 +44,8 @@ def gen_case(rng, params):
 from chancommon import KIND, CASE_WALL, run_impl, shrink_candidates, classify_common  # noqa: E402
 
 SPECS = ["C02"]
-THEOREMS = ["C02.rupLoop_spec", "C02.readUntilPrompt_spec", "C02.rup_spec", "C02.case_spec", "ChanCase.keeps"]
-LEAN_MODULES = ["TbotVerif.Props.ChanCase"]
+THEOREMS = ["C02.rupLoop_spec", "C02.readUntilPrompt_spec", "C02.rup_spec", "C02.case_spec", "ChanCase.keeps", "C02.rup_fragmentation", "C02.rup_fragmentation_gen", "C02.promptEnd_anchored_iff", "Re.M_sound", "Re.M_complete", "Re.L_maxWidth", "Re.search_sound", "Re.search_complete"]
+LEAN_MODULES = ["TbotVerif.Props.ChanCase", "TbotVerif.Props.C02Extra"]
 QUICK_N, THOROUGH_N = 4000, 60000
 QUICK_BUDGET, THOROUGH_BUDGET = 40, 600
 RULE = ("random (prompt, stream, composition, schedule, chunk size, per-call/configured prompt) tuples; streams are "
